@@ -38,10 +38,11 @@ def one_case(case):
                    case['domain_via'], case['ext_via'])
         res = {'case': case, 'problems': [], 'observed': 0, 'refused': 0}
         try:
-            if not t.wait_ready():
+            if not t.wait_ready(60):
                 err = t.stderr_text()
-                kind = 'infra' if 'Address already in use' in err else 'start'
-                res['problems'].append((kind, 'tacd did not start: %s' % err[-400:]))
+                # still running (slow key generation on a loaded machine) or a port taken by somebody else: not a verdict
+                kind = 'infra' if (t.alive() or 'Address already in use' in err) else 'start'
+                res['problems'].append((kind, 'tacd did not start (exit status %s): %s' % (t.p.poll(), err[-400:])))
                 return res
             steps = [{'do': 'tls', 'alpn': o, 'connect_tries': 40} for o in case['offers']]
             steps += [{'do': 'tls', 'alpn': o, 'connect_tries': 40} for o in case['foreign']]
